@@ -12,15 +12,15 @@ Every change below compiles, passes the three existing suites, has a demonstrati
 with it and passes without it (re-confirmed with `tools/seedtest.sh` in a scratch worktree), and is kept
 under `/verif/seeded/<id>/` (patch.diff, the demonstration, README.md, meta.json). The sub-agents were given the
 property text and a scratch worktree, nothing from /verif; from the second round on they were also told what had
-been taken already and asked for changes that are harder to notice (`<P>-r2-<n>` ... `<P>-r5-<n>`; the later rounds
+been taken already and asked for changes that are harder to notice (`<P>-r2-<n>` ... `<P>-r6-<n>`; round 6 covered the 12 properties with a miss in round 5; the later rounds
 were pointed at shared helpers outside the anchored files, rarely used options, second uses, numeric edges, cleanup
 paths and feature interactions). "Cxx quick" means the registered quick command printed a VIOLATION line with a
 failing input when run against the changed tree (`VERIF_REPO=<worktree> ./check Cxx`; `tools/accept.sh`,
-`tools/accept5.sh` = a clean run plus a round's seeds). The table is generated from the meta.json files by
-`tools/seedtable.py` (`tools/regen94.py` rewrites this section). %d changes in five rounds (3 per property per
+`tools/accept5.sh`, `tools/accept6.sh` = a clean run plus a round's seeds). The table is generated from the meta.json files by
+`tools/seedtable.py` (`tools/regen94.py` rewrites this section). %d changes in six rounds (3 per property per
 round); every one is detected by the quick tier of some registered check now, with a failing input. Missed by every
-check when they arrived: 12, 18, 16, 25 and 13 of 60 per round (round 5 also had 4 that were reported only as a
-correspondence break without a failing input): each miss led to a strengthening of a generator, a harness or a
+check when they arrived: 12, 18, 16, 25 and 13 of 60 in rounds 1-5 and 15 of 36 in round 6 (round 5 also had 4 that were reported only as
+a correspondence break without a failing input): each miss led to a strengthening of a generator, a harness or a
 specification, named in the note column and summarised in 9.5 - never to a special case for the seeded input. Two
 of the strengthenings exposed defects of the unchanged library, which were repaired (9.2: f256ce5, 8088cf8). A change
 is sometimes caught by another property's check than the one it was written against (the note says which); seeds of
